@@ -519,7 +519,7 @@ func planC01(prop string, seed uint64, tier string, idx int) *Plan {
 		switch g.r.intn(15) {
 		case 14:
 			g.pushManifest(repo, plat, "", false)
-			g.add(Op{K: "man", Repo: repo, Obj: wrongSize[g.r.intn(len(wrongSize))], Tag: "sz", CT: "own"})
+			g.add(Op{K: "man", Repo: repo, Obj: wrongSize[g.r.intn(len(wrongSize))], Tag: "sz", CT: g.r.str(mtOCIIndex, "none")})
 			g.add(Op{K: "get", Mode: "man", Repo: repo, Obj: plat, Accept: "all", Head: g.r.chance(20)})
 			g.add(Op{K: "get", Mode: "tag", Repo: repo, Tag: "sz", Accept: g.r.str("other", "all")})
 		case 12:
@@ -528,7 +528,7 @@ func planC01(prop string, seed uint64, tier string, idx int) *Plan {
 			g.add(Op{K: "get", Mode: "tag", Repo: repo, Tag: tag, Accept: g.r.str("other", "other", "all"), Head: g.r.chance(30)})
 		case 13:
 			ti := travIdx[g.r.intn(len(travIdx))]
-			g.add(Op{K: "man", Repo: repo, Obj: ti, Tag: "trav", CT: g.r.str("own", "none")})
+			g.add(Op{K: "man", Repo: repo, Obj: ti, Tag: "trav", CT: g.r.str(mtOCIIndex, "none")})
 			g.add(Op{K: "get", Mode: "tag", Repo: repo, Tag: "trav", Accept: g.r.str("other", "all")})
 		case 0, 1, 2, 3:
 			b := blobs[g.r.intn(len(blobs))]
